@@ -296,7 +296,7 @@ def decode_coder(method: bytes, props: bytes | None, data: bytes, unpack_size: i
     if name == "ZSTD":
         import pyzstd
 
-        return pyzstd.ZstdDecompressor().decompress(data)
+        return pyzstd.decompress(data)  # (multi-frame)
     if name == "BROTLI":
         import brotli
 
@@ -385,8 +385,15 @@ def encode_coder(name: str, data: bytes, params: dict, password: str | None) -> 
     if name == "ZSTD":
         import pyzstd
 
-        c = pyzstd.ZstdCompressor(params.get("level", 3))
-        return c.compress(data) + c.flush(), bytes([pyzstd.zstd_version_info[0], pyzstd.zstd_version_info[1], params.get("level", 3), 0, 0])
+        # frames > 1: the stream is a concatenation of complete Zstandard frames (what multi-threaded encoders emit);
+        # the Zstandard format defines the content of such a stream as the concatenation of the frames' contents
+        k = max(1, params.get("frames", 1))
+        cut = [len(data) * i // k for i in range(k + 1)]
+        out = b""
+        for i in range(k):
+            c = pyzstd.ZstdCompressor(params.get("level", 3))
+            out += c.compress(data[cut[i] : cut[i + 1]]) + c.flush()
+        return out, bytes([pyzstd.zstd_version_info[0], pyzstd.zstd_version_info[1], params.get("level", 3), 0, 0])
     if name == "BROTLI":
         import brotli
 
